@@ -191,15 +191,15 @@ func (r *runner) random(c Config, n int, rng *rand.Rand) error {
 // representative per class of interleavings that differ only in the order of independent steps.
 func (r *runner) dfs(c Config, budget int, por bool) error {
 	st := r.sum.Systems[c.Sys]
+	if budget == 0 {
+		return nil
+	}
 	if por {
 		st.PorConfigs++
 	} else {
 		st.DfsConfigs++
 	}
 	var prefix []int
-	if budget == 0 {
-		return nil
-	}
 	for n := 0; ; n++ {
 		if n >= budget {
 			return nil
